@@ -104,6 +104,35 @@ func init() {
 				"sha256.Sum256([]byte(codeVerifier))":          {"()", "unit"},
 				"base64.RawURLEncoding.EncodeToString(sum[:])": {"(s256 codeVerifier)", "string"}},
 			retLean: "Bool"},
+		// C14 / C05: validateUserTOTP — spacing, lock-out, one-time use; map writes and the profile save are effects
+		glTarget{pkg: "cmd/keymasterd", name: "validateUserTOTP", group: "Totp",
+			binders:   "(ext : KM.GoTypes.TotpExt) (now : Int) (rate0 : KM.GoTypes.totpRateLimitInfo)",
+			paramLean: map[string]string{"t": "Int"},
+			paramGo:   map[string]string{"t": "int"},
+			traceLean: "KM.GoTypes.TotpEffect",
+			stores:    map[string]string{"state.totpLocalRateLimit[username]": "KM.GoTypes.TotpEffect.storeRate"},
+			paths: map[string][2]string{
+				"state.totpLocalRateLimit[username]": {"rate0", "totpRateLimitInfo"},
+				"userRateLimit.lastCheckTime.Add(time.Second * time.Duration(minSecsBetweenTOTPValidations)).After(time.Now())": {
+					"(decide (userRateLimit.lastCheckTime + (2 : Int) > now))", "bool"},
+				"time.Now()": {"now", "int"},
+				"userRateLimit.lockoutExpirationTime.After(time.Now())": {"(decide (userRateLimit.lockoutExpirationTime > now))", "bool"},
+				"userRateLimit.lastFailTime.Add(time.Duration(numHoursForLocalTOTPRateLimitReset) * time.Hour).Before(time.Now())": {
+					"(decide (userRateLimit.lastFailTime + (24 : Int) * 3600 < now))", "bool"},
+				"int64(math.Floor(float64(t.Unix()) / float64(defaultPeriod)))": {"(t / 30)", "int"},
+				"fmt.Sprintf(\"%06d\", OTPValue)":                               {"(ext.otpString OTPValue)", "string"},
+				"profile.TOTPAuthData":                                          {"profile.TOTPAuthData", "[]totpAuthData"},
+				"string(clearTextKey)":                                          {"clearTextKey", "string"},
+				"time.Now().Add(time.Duration(userRateLimit.failCount/numFailedTOTPChecksForTimeoutIncrease) * time.Hour)": {
+					"(now + (Int.tdiv userRateLimit.failCount 5) * 3600)", "int"}},
+			externs: map[string]glExtern{
+				"state.totpLocalTateLimitMutex.Lock":   {lean: "()", ret: []string{}, args: []int{}, effect: "KM.GoTypes.TotpEffect.lock"},
+				"state.totpLocalTateLimitMutex.Unlock": {lean: "()", ret: []string{}, args: []int{}, effect: "KM.GoTypes.TotpEffect.unlock"},
+				"state.LoadUserProfile":                {lean: "ext.loadProfile", ret: []string{"userProfile", "bool", "bool", "error"}},
+				"state.decryptWithPublicKeys":          {lean: "ext.decrypt", ret: []string{"string", "error"}},
+				"totpMatchedCounter":                   {lean: "ext.matched", ret: []string{"int", "bool"}, effect: "KM.GoTypes.TotpEffect.eval"},
+				"state.SaveUserProfile":                {lean: "ext.saveResult", ret: []string{"error"}, effect: "KM.GoTypes.TotpEffect.saveProfile"}},
+			retLean: "(Bool × Option KM.Go.Err) × List KM.GoTypes.TotpEffect"},
 		// C08
 		glTarget{pkg: "cmd/keymasterd", name: "isAutomationAdmin", group: "Admin",
 			binders: "(isAdminUser : List Char → Bool) (automationAdmins : List (List Char))",
